@@ -15,6 +15,7 @@ pub mod c12;
 pub mod c13;
 pub mod c14;
 pub mod c17;
+pub mod c18;
 pub mod c20;
 pub mod collcheck;
 
@@ -35,6 +36,7 @@ pub fn dispatch(ctx: &Ctx, replay: Option<&str>) -> i32 {
         "C13" => c13::run(ctx, replay),
         "C14" => c14::run(ctx, replay),
         "C17" => c17::run(ctx, replay),
+        "C18" => c18::run(ctx, replay),
         "C20" => c20::run(ctx, replay),
         _ => {
             eprintln!("no check for property {}", ctx.prop);
